@@ -55,7 +55,7 @@ type Case struct {
 var checker = &vk.Checker[Case]{
 	ID: "C20",
 	Rule: "random acyclic (type, value) trees, depth <= 4, fan-out <= 4, built with reflect (StructOf, SliceOf, MapOf, ArrayOf, PtrTo): every scalar kind incl. int, uint, uintptr and complex; strings (incl. empty); arrays (len 0..3); slices and maps (nil / empty / non-empty; map keys string, ints, bool, small arrays/structs, interface{} holding a scalar or string; distinct by construction); " +
-		"pointers (nil / to a fresh value; a class with two pointers to one pointee); interface{} fields/elements (nil / holding any generated value); structs with 0..4 fields, hand-declared named structs with unexported fields, and two different local struct types that print the same type name; top-level nil. Oracle by construction: the builder returns the expected size (widths from a fixed 64-bit table, headers 16/24/8/8/16 once per string/slice/map/pointer/interface node, arrays/structs the plain sum). " +
+		"pointers (nil / to a fresh value; a class with two pointers to one pointee); interface{} fields/elements (nil / holding any generated value); structs with 0..4 fields, hand-declared named structs with unexported fields, two different local struct types that print the same type name, and structs whose slices are overlapping views of one backing array; top-level nil. Oracle by construction: the builder returns the expected size (widths from a fixed 64-bit table, headers 16/24/8/8/16 once per string/slice/map/pointer/interface node, arrays/structs the plain sum). " +
 		"size.Of(v) == expected, no panic, and the number after the last ': ' on the first line of Stat(v, depth, maxItem) == expected. Grid: every scalar kind alone and inside a struct, slice, array, map value, pointer, interface. Non-trivial: a header-carrying kind nested inside another header-carrying kind. Distinct by hash of the case.",
 	Check:    check,
 	Classify: classify,
@@ -152,6 +152,10 @@ func goType(t T) reflect.Type {
 			fs[i] = reflect.StructField{Name: "F" + strconv.Itoa(i), Type: goType(f)}
 		}
 		return reflect.StructOf(fs)
+	case "overlap":
+		et := goType(*t.Elem)
+		st := reflect.SliceOf(et)
+		return reflect.StructOf([]reflect.StructField{{Name: "All", Type: st}, {Name: "Head", Type: st}, {Name: "None", Type: st}, {Name: "Tail", Type: st}})
 	case "recA":
 		v, _ := mkRecA(V{})
 		return v.Type()
@@ -253,6 +257,23 @@ func build(t T, v V) (reflect.Value, int) {
 			sum += sz
 		}
 		return out, sum
+	case "overlap":
+		// four views of one backing array: all of it, a prefix (same start address, shorter), the empty
+		// prefix, and a suffix; the structural sum counts the elements of every view
+		n := max(v.Len, 1)
+		k := v.I % (n + 1)
+		all := reflect.MakeSlice(reflect.SliceOf(goType(*t.Elem)), n, n)
+		esz := 0
+		for i := 0; i < n; i++ {
+			e, sz := build(*t.Elem, V{I: i})
+			all.Index(i).Set(e)
+			esz = sz
+		}
+		out.Field(0).Set(all)
+		out.Field(1).Set(all.Slice(0, k))
+		out.Field(2).Set(all.Slice(0, 0))
+		out.Field(3).Set(all.Slice(k, n))
+		return out, 4*24 + esz*(n+k+0+(n-k))
 	case "recA":
 		return mkRecA(v)
 	case "recB":
@@ -412,7 +433,7 @@ func check(c Case) *vk.Failure {
 
 func header(k string) bool {
 	switch k {
-	case "string", "slice", "map", "ptr", "iface", "named1", "named2", "shared", "recA", "recB":
+	case "string", "slice", "map", "ptr", "iface", "named1", "named2", "shared", "recA", "recB", "overlap":
 		return true
 	}
 	return false
@@ -459,7 +480,7 @@ func nested(t T, v V, inside bool) bool {
 		if !v.Nil && v.Dyn != nil {
 			return nested(*v.Dyn, elemV(v, 0), true)
 		}
-	case "named1", "named2", "recA", "recB":
+	case "named1", "named2", "recA", "recB", "overlap":
 		return true
 	}
 	return false
@@ -491,7 +512,7 @@ func classify(c Case) (bool, []string) {
 	seen := map[string]bool{}
 	kinds(c.T, c.V, seen)
 	labels := []string{"top:" + c.T.K}
-	for _, k := range []string{"uint", "uintptr", "int", "map", "iface", "ptr", "slice", "string", "array", "struct", "complex64", "complex128", "named1", "named2", "shared", "recA", "recB"} {
+	for _, k := range []string{"uint", "uintptr", "int", "map", "iface", "ptr", "slice", "string", "array", "struct", "complex64", "complex128", "named1", "named2", "shared", "recA", "recB", "overlap"} {
 		if seen[k] {
 			labels = append(labels, "has:"+k)
 		}
@@ -533,6 +554,10 @@ func genType(t *rapid.T, depth int, allowIface bool) T {
 	case 6:
 		return T{K: []string{"named1", "named2", "recA", "recB"}[gen.Uniform(t, 4, "named")]}
 	case 7:
+		if gen.Chance(t, 1, 2, "overlap") {
+			e := T{K: scalarKinds[gen.Uniform(t, len(scalarKinds), "oscalar")]}
+			return T{K: "overlap", Elem: &e}
+		}
 		e := genType(t, depth-1, true)
 		return T{K: "shared", Elem: &e}
 	default:
@@ -617,6 +642,9 @@ func genValue(t *rapid.T, ty T, depth int) V {
 		for _, f := range ty.Fields {
 			v.Elems = append(v.Elems, genValue(t, f, depth-1))
 		}
+	case "overlap":
+		v.Len = 1 + gen.Uniform(t, 9, "n")
+		v.I = gen.Uniform(t, 12, "k")
 	case "named1", "named2", "recA", "recB":
 		v.Len = gen.Uniform(t, 6, "len")
 		v.Nil = gen.Chance(t, 1, 3, "nil")
@@ -631,7 +659,7 @@ func genCase(t *rapid.T) Case {
 		return Case{NilArg: true}
 	}
 	ty := genType(t, 4, false)
-	return Case{T: ty, V: genValue(t, ty, 4), Depth: gen.Uniform(t, 3, "depth"), MaxItem: []int{0, 1, 3}[gen.Uniform(t, 3, "maxitem")]}
+	return Case{T: ty, V: genValue(t, ty, 4), Depth: []int{0, 1, 2, 3, 10, -1}[gen.Uniform(t, 6, "depth")], MaxItem: []int{0, 1, 3, 100, -1}[gen.Uniform(t, 5, "maxitem")]}
 }
 
 func TestRegress(t *testing.T) { checker.Regress(t) }
@@ -675,6 +703,14 @@ func TestGrid(t *testing.T) {
 	for _, kt := range []T{{K: "bool"}, {K: "int"}, {K: "uint"}, {K: "uintptr"}, {K: "iface"}, {K: "array", Elem: &T{K: "int16"}, Len: 2}, {K: "struct", Fields: []T{{K: "int32"}, {K: "string"}}}} {
 		kt := kt
 		checker.Run(t, Case{T: T{K: "map", Key: &kt, Elem: &T{K: "string"}}, V: V{Keys: []V{{Len: 1}, {Len: 2}}, Elems: []V{{Len: 3}, {Len: 0}}}, Class: "grid", Depth: 1, MaxItem: 1})
+	}
+	for _, ek := range []string{"int32", "uint8", "complex128"} {
+		ek := ek
+		for _, nk := range [][2]int{{8, 2}, {8, 0}, {8, 8}, {1, 1}, {5, 3}} {
+			for _, d := range []int{0, 1, 3} {
+				checker.Run(t, Case{T: T{K: "overlap", Elem: &T{K: ek}}, V: V{Len: nk[0], I: nk[1]}, Class: "grid-overlap", Depth: d, MaxItem: 2})
+			}
+		}
 	}
 	for _, k := range []string{"recA", "recB", "recA", "recB"} { // same printed type name, different layouts, alternating
 		checker.Run(t, Case{T: T{K: k}, V: V{I: 3, Len: 4, Elems: make([]V, 3)}, Class: "grid", Depth: 2, MaxItem: 3})
